@@ -490,3 +490,69 @@ def fault_variants(max_faults):
             out.append(c)
         return out
     return expand
+
+
+RANK = {"validators": 0, "cond": 1, "before": 2, "exit": 3, "on": 4, "enter": 6, "after": 7}
+
+
+def c02_monitor(s, a, rt):
+    """C02 Spec on the implementation's observation (RTC): inside one trigger's block, after the
+    last rejected candidate, phases never go backwards (validators<=cond<=before<=exit<=on<=T<=enter<=after);
+    callbacks before the assignment see the block's starting state, those after it the assigned one;
+    the `__initial__` block holds only the assignment and enter callbacks."""
+    fails = []
+    if not s.rtc:
+        return fails
+    cur = "-" if s.cur0 is None else eng.rp(eng.POOL[s.cur0])
+    block_tid, start_cur, last_rank, assigned = None, cur, -1, None
+    for l in a:
+        p = l.split(" ")
+        if p[0] == "R":
+            kv = dict(x.split("=", 1) for x in p if "=" in x)
+            cur = kv["cur"]
+            block_tid = None
+            continue
+        if p[0] == "T":
+            # belongs to the block in progress (or opens the block of a trigger without callbacks before it)
+            if last_rank > 5 or assigned is not None:
+                block_tid, start_cur, last_rank, assigned = None, cur, -1, None
+            assigned = p[1]
+            last_rank = 5
+            cur = p[1]
+            continue
+        tid, ph = p[1], p[2]
+        if tid != block_tid:
+            block_tid, start_cur, last_rank, assigned = tid, cur, -1, None
+        r = RANK[ph]
+        if r < last_rank:
+            if last_rank <= 1 and r == 0:
+                pass  # next candidate after a rejected one: validators again
+            else:
+                fails.append(f"C02: phase {ph} after rank {last_rank} in trigger {tid}: {l}")
+                break
+        last_rank = r
+        if p[0] == "B":
+            f = dict(x.split("=", 1) for x in p[4:])
+            want = start_cur if r < 5 else assigned
+            if want is not None and f["seen"] != want:
+                fails.append(f"C02: callback in phase {ph} saw state {f['seen']}, expected {want}: {l}")
+                break
+            if f.get("st", "?") not in ("?",) and want is not None and f["st"] != want and f["ev"] != "0":
+                fails.append(f"C02: `state` argument {f['st']} differs from the documented view {want}: {l}")
+                break
+            if f.get("ev") == "0" and ph != "enter":
+                fails.append(f"C02: initial activation ran a {ph} callback: {l}")
+                break
+            cbd = rt.cbmap.get(int(p[3]))
+            if cbd is not None and cbd.style == "conv" and cbd.at[0] == "ev" and f.get("ev", "?") != "?" \
+                    and f["ev"] != str(cbd.at[1]):
+                fails.append(f"C02: event-named callback {cbd.name} ran for event {f['ev']}: {l}")
+                break
+            if ph in ("exit", "enter") and f.get("src", "?") not in ("?", "-") and f.get("tgt", "?") != "?" \
+                    and f.get("ev", "?") != "?":
+                cands = [t for t in s.trans if str(t.src) == f["src"] and str(t.tgt) == f["tgt"]
+                         and int(f["ev"]) in t.events]
+                if cands and all(t.internal for t in cands):
+                    fails.append(f"C02: {ph} callback ran for an internal transition: {l}")
+                    break
+    return fails
